@@ -654,6 +654,88 @@ func acrossFlaps(c *ev.Check) {
 	}
 }
 
+
+// ------------------------------------------------------------------ boundary configurations
+// "every schema configuration with local <= global limits": the step sequences run on local 2 / global 5. Here the
+// limits sit on their boundaries - 0/0, 0/5, 1/1, 5/5 - and the same upper bounds are read after a few telling steps.
+
+func boundaryConfigs(c *ev.Check) {
+	type cfgLG struct{ local, global int32 }
+	for _, cf := range []cfgLG{{0, 0}, {0, 5}, {1, 1}, {5, 5}} {
+		for _, strategy := range []proxyv1alpha1.LimitStrategy{proxyv1alpha1.GlobalAllocateLimit, proxyv1alpha1.GlobalCountLimit} {
+			vtime.SetVirtual(time.Unix(1700000000, 0))
+			remote.VerifSetWaitAcquireTimeout(time.Millisecond)
+			ctx, cancel := context.WithCancel(context.Background())
+			st := newStub()
+			if strategy == proxyv1alpha1.GlobalCountLimit {
+				st.noAPI = true
+			}
+			lim := flowcontrols.NewUpstreamLimiter(ctx, "c1", flowcontrol.RemoteFlowControls, st)
+			sc := proxyv1alpha1.FlowControlSchema{Name: "s", Strategy: strategy, FlowControlSchemaConfiguration: proxyv1alpha1.FlowControlSchemaConfiguration{
+				MaxRequestsInflight:       &proxyv1alpha1.MaxRequestsInflightFlowControlSchema{Max: cf.local},
+				GlobalMaxRequestsInflight: &proxyv1alpha1.MaxRequestsInflightFlowControlSchema{Max: cf.global}}}
+			lim.Sync(proxyv1alpha1.FlowControl{Schemas: []proxyv1alpha1.FlowControlSchema{sc}})
+			w := &world{lim: lim, stub: st, cancel: cancel, typ: "mif", strategy: strategy, gMax: int(cf.global), lastGood: -1, reqTime: 1000}
+			probe := func() int {
+				fc := lim.GetOrDefault("s")
+				n := 0
+				var held []flowcontrol.FlowControl
+				for i := 0; i < 9; i++ {
+					if !fc.TryAcquire() {
+						break
+					}
+					held = append(held, fc)
+					n++
+				}
+				for _, h := range held {
+					h.Release()
+				}
+				return n
+			}
+			steps := allocateSteps("mif")
+			if strategy == proxyv1alpha1.GlobalCountLimit {
+				steps = countSteps("mif")
+			}
+			var hist []string
+			judge := func(usable bool) {
+				c.Add("boundary_probes", 1)
+				var A int
+				if p := kit.Try(func() { A = probe() }); p != "" {
+					c.Violation(fmt.Sprintf("mif-%s/boundary/panic", strategy), fmt.Sprintf("local %d / global %d, %v: a request panicked in the limiter: %s", cf.local, cf.global, hist, first(p)), nil)
+					return
+				}
+				c.Outcome("probe_outcomes", fmt.Sprintf("boundary/%s/%d-%d/%v/%d", strategy, cf.local, cf.global, usable, A))
+				if A > int(cf.global) {
+					c.Violation(fmt.Sprintf("mif-%s/boundary/exceeds-global-limit", strategy), fmt.Sprintf("schema with local limit %d / global limit %d, after %v: %d requests are admitted concurrently", cf.local, cf.global, hist, A),
+						map[string]interface{}{"strategy": string(strategy), "local": cf.local, "global": cf.global, "steps": hist})
+				}
+				if !usable && A != int(cf.local) {
+					c.Violation(fmt.Sprintf("mif-%s/boundary/no-local-fallback", strategy), fmt.Sprintf("schema with local limit %d / global limit %d, after %v: the server is not usable but %d requests are admitted", cf.local, cf.global, hist, A),
+						map[string]interface{}{"strategy": string(strategy), "local": cf.local, "global": cf.global, "steps": hist})
+				}
+			}
+			hist = append(hist, "(start)")
+			judge(true)
+			for _, name := range []string{"answer quota=5", "acquire answer accept=true limit=5", "answer quota=0", "acquire answer accept=false limit=0", "acquire answer error=timeout", "round fails (server error)", "server not ready", "server ready", "answer quota=2147483647", "acquire answer accept=true limit=2147483647"} {
+				for _, stp := range steps {
+					if stp.name != name {
+						continue
+					}
+					hist = append(hist, name)
+					if p := kit.Try(func() { stp.do(w) }); p != "" {
+						c.Violation(fmt.Sprintf("mif-%s/boundary/panic", strategy), fmt.Sprintf("local %d / global %d, %v: the gateway-side limiter panicked: %s", cf.local, cf.global, hist, first(p)), nil)
+						continue
+					}
+					judge(st.ready && !st.noShard)
+				}
+			}
+			lim.Sync(proxyv1alpha1.FlowControl{})
+			cancel()
+		}
+	}
+	vtime.SetReal()
+}
+
 func harnessFirstAnswer(c *ev.Check, bound int) xa.Harness {
 	body := func() interface{} {
 		var w *world
@@ -738,6 +820,7 @@ func main() {
 	}
 	tasks = append(tasks, ev.Task{Name: "real-loops-silent-server", Run: func() { silentServer(c) }})
 	tasks = append(tasks, ev.Task{Name: "in-flight-across-flaps", Run: func() { acrossFlaps(c) }})
+	tasks = append(tasks, ev.Task{Name: "boundary-configs", Run: func() { boundaryConfigs(c) }})
 	c.RunTasks(tasks)
 	c.Finish(map[string]interface{}{
 		"evaluations":         c.Counter("probes") + c.Counter("schedules"),
